@@ -10,7 +10,7 @@ skip_tests = "--skip-tests" in sys.argv
 demo_cmake = ""
 for a_ in sys.argv:
     if a_.startswith("--demo-cmake="):
-        demo_cmake = a_.split("=", 1)[1]   # extra cmake flags for the build the demonstration needs (e.g. -DFP_PRIME=255)
+        demo_cmake = a_.split("=", 1)[1].replace(";", " ")   # several flags are separated by ';' # extra cmake flags for the build the demonstration needs (e.g. -DFP_PRIME=255)
 wt = "/tmp/vs-" + sid
 log = open("/tmp/vs-%s.log" % sid, "w")
 
